@@ -123,6 +123,18 @@ def run(ctx):
                 recs.append(rotate_rec(am, name, UO[name], W))
             except Exception as e:
                 ctx.violation('rotate raised %s' % excname(e), str(W) + ' ' + name + ' (cell with non-zero origin) ' + repr(e)[:200])
+    # the same requests on cells that are NOT in the LAMMPS orientation (axes cyclically relabelled): the returned rotation is then not
+    # the identity even for identity vectors, and every atom still maps back through it
+    for name in ('ortA', 'mono', 'tri1', 'B2'):
+        uc0, basis, dd, setting = U[name]
+        Pc = np.array([[0.0, 1, 0], [0, 0, 1], [1, 0, 0]])
+        turned = am.System(atoms=am.Atoms(atype=uc0.atoms.atype, pos=uc0.atoms.pos @ Pc, q=uc0.atoms.q, w=uc0.atoms.w),
+                           box=am.Box(vects=uc0.box.vects @ Pc, origin=uc0.box.origin @ Pc), symbols=uc0.symbols)
+        for W in ([[1, 0, 0], [0, 1, 0], [0, 0, 1]], [[1, 1, 0], [-1, 1, 0], [0, 0, 1]]):
+            try:
+                recs.append(rotate_rec(am, name + '(turned)', (turned, basis, dd, setting), W))
+            except Exception as e:
+                ctx.violation('rotate raised %s' % excname(e), str(W) + ' ' + name + ' (cell not in LAMMPS orientation) ' + repr(e)[:200])
     # hexagonal 4-index input and non-integer refusal
     for W4 in ([[2, -1, -1, 0], [-1, 2, -1, 0], [0, 0, 0, 1]], [[1, 0, -1, 0], [-1, 2, -1, 0], [0, 0, 0, 1]], [[1, 1, -2, 0], [-1, 1, 0, 0], [0, 0, 0, 2]]):
         W = [[r[0] - r[2], r[1] - r[2], r[3]] for r in W4]
